@@ -11,6 +11,8 @@ import (
 	"path/filepath"
 	"sort"
 	"strings"
+
+	"github.com/cosmos/cosmos-sdk/types/query"
 	"time"
 
 	sdk "github.com/cosmos/cosmos-sdk/types"
@@ -1528,6 +1530,7 @@ func cmdStore(args []string) {
 		samples = append(samples, eh[0][2], eh[0][3])
 	}
 	kinds["genesis_import.reads"] = genesisImportIsolation(c, mon)
+	kinds["str.list_queries_on_prefix_like_addresses"] = streamQueriesAgainstKeys(c, mon)
 	writeJSON(filepath.Join(*out, "stats_store.json"), map[string]interface{}{
 		"files": files, "evaluations": total, "distinct_nontrivial": len(distinct),
 		"rule":          "(x/beacon and x/enterprise: see rule_bcn_ent) sequences of real keeper store-accessor calls of x/wrkchain (params, highest id, WRKChains, storage limits, block records: set / get / has / listings ascending, descending, paginated, early stop, lowest height in state) and x/stream (params, streams keyed by address pairs of 1..255 bytes incl. byte-prefixes of one another: set / get / is / delete / listing with the pair parsed from the key, unencodable times) on a cached context of the real application; ids and heights from a boundary pool (1..4, 2^8, 2^16, 2^32, 2^63, 2^64-1); the translated accessors replay each sequence from the empty store (vm_compute) and a Go shadow map decides read-your-write / non-interference / listing completeness on the implementation",
@@ -1598,4 +1601,94 @@ func genesisImportIsolation(c *chain, mon *storeMon) int {
 		verify("after flushing to the parent context", parent)
 	}()
 	return checks
+}
+
+// streamQueriesAgainstKeys (C18): the three stream list queries receive keys of a PREFIX store (without the 0x11 module
+// prefix) and parse the address pair back out of them.  Streams are written through the keeper between addresses whose
+// LENGTH is the value of a store prefix byte (17 = 0x11, 1, 2, 16, 18), whose first byte is one, and of 1 / 20 / 32 / 255
+// bytes; every query answer must name exactly the pairs that were written, each once.
+func streamQueriesAgainstKeys(c *chain, mon *storeMon) int {
+	ctx, _ := c.ctx().CacheContext()
+	wipeStore(ctx, c, strtypes.StoreKey)
+	k := c.app.StreamKeeper
+	k.SetParams(ctx, strtypes.DefaultParams())
+	mkAddr := func(n int, first byte) sdk.AccAddress {
+		a := make([]byte, n)
+		for i := range a {
+			a[i] = byte(31*i + n)
+		}
+		a[0] = first
+		return a
+	}
+	var addrs []sdk.AccAddress
+	for _, n := range []int{1, 2, 16, 17, 18, 20, 32, 255} {
+		addrs = append(addrs, mkAddr(n, 0x11), mkAddr(n, byte(n)))
+	}
+	want := map[string]bool{}
+	for i, ra := range addrs {
+		for j, sa := range addrs {
+			if i == j || (i+2*j)%3 != 0 {
+				continue
+			}
+			if err := k.SetStream(ctx, ra, sa, strtypes.Stream{Deposit: sdk.NewInt64Coin("nund", int64(1+i)), FlowRate: int64(1 + j), LastOutflowTime: c.now, DepositZeroTime: c.now}); err != nil {
+				continue
+			}
+			want[ra.String()+"|"+sa.String()] = true
+		}
+	}
+	gctx := sdk.WrapSDKContext(ctx)
+	n := 0
+	check := func(name string, got []*strtypes.StreamResult, err error, keep func(r, s string) bool) {
+		n++
+		if err != nil {
+			mon.fail(-1, "stream query %s fails on streams between addresses of 1..255 bytes: %v", name, err)
+			return
+		}
+		seen := map[string]bool{}
+		for _, x := range got {
+			p := x.Receiver + "|" + x.Sender
+			if !want[p] || seen[p] {
+				mon.fail(-1, "stream query %s reports a stream of (receiver %s, sender %s): no stream was stored for that pair (or it is reported twice) - the pair parsed out of the store key is not the one the key was built from", name, x.Receiver, x.Sender)
+				return
+			}
+			seen[p] = true
+		}
+		for p := range want {
+			rs := strings.SplitN(p, "|", 2)
+			if keep(rs[0], rs[1]) && !seen[p] {
+				mon.fail(-1, "stream query %s omits the stored stream of (receiver %s, sender %s)", name, rs[0], rs[1])
+				return
+			}
+		}
+	}
+	func() {
+		defer func() {
+			if r := recover(); r != nil {
+				mon.fail(-1, "a stream list query panics on streams between addresses of 1..255 bytes: %v", r)
+			}
+		}()
+		all := &query.PageRequest{Limit: 10000}
+		res, err := k.Streams(gctx, &strtypes.QueryStreamsRequest{Pagination: all})
+		var got []*strtypes.StreamResult
+		if res != nil {
+			got = res.Streams
+		}
+		check("Streams", got, err, func(string, string) bool { return true })
+		for _, a := range addrs {
+			who := a.String()
+			rs, err := k.AllStreamsForSender(gctx, &strtypes.QueryAllStreamsForSenderRequest{SenderAddr: who, Pagination: all})
+			got = nil
+			if rs != nil {
+				got = rs.Streams
+			}
+			check("AllStreamsForSender("+who+")", got, err, func(_, s string) bool { return s == who })
+			rr, err := k.AllStreamsForReceiver(gctx, &strtypes.QueryAllStreamsForReceiverRequest{ReceiverAddr: who, Pagination: all})
+			got = nil
+			if rr != nil {
+				got = rr.Streams
+			}
+			check("AllStreamsForReceiver("+who+")", got, err, func(r, _ string) bool { return r == who })
+		}
+	}()
+	return n
 }
